@@ -297,6 +297,90 @@ def header_case(ctx, items):
     return out
 
 
+# --------------------------------------------------------------------------------------------------- keep-alive
+ACCEPT_HEADERS = [None, 'gzip', 'identity', 'gzip;q=0', 'x-lz4', 'lz4', 'gzip, x-lz4, lz4', 'x-lz4;q=0, gzip', 'br', '']
+
+
+def st_keepalive_case():
+    from sdc11073.httpserver.compression import CompressionHandler
+    codings = list(CompressionHandler.available_encodings)
+    return st.fixed_dictionaries({
+        'server_supported': st.lists(st.sampled_from(codings), unique=True, min_size=1, max_size=len(codings)),
+        'server_chunk': st.sampled_from([0, 0, 7, 4000]),
+        'resp_size': st.integers(0, 3000), 'seed': st.integers(0, 1000),
+        'requests': st.lists(st.sampled_from(ACCEPT_HEADERS), min_size=2, max_size=5)})
+
+
+def split_responses(raw: bytes) -> list:
+    """[(status line, headers, decoded-transfer body)] of the responses in a keep-alive byte stream."""
+    out = []
+    rest = raw
+    while rest:
+        head, sep, tail = rest.partition(b'\r\n\r\n')
+        if not sep:
+            raise ValueError(f'no header end in {rest[:60]!r}')
+        lines = head.decode('latin-1').split('\r\n')
+        headers = {}
+        for line in lines[1:]:
+            k, _, v = line.partition(':')
+            headers[k.strip().lower()] = v.strip()
+        if headers.get('transfer-encoding', '').lower() == 'chunked':
+            body, rest = ref_dechunk(tail)
+        else:
+            n = int(headers.get('content-length', '0'))
+            body, rest = tail[:n], tail[n:]
+        out.append((lines[0], headers, body))
+    return out
+
+
+def keepalive_case(ctx, c):
+    """Several requests on one connection, each with its own Accept-Encoding: every response is coded for its request."""
+    from sdc11073.httpserver.compression import CompressionHandler
+    server = M.MemServer(chunk_size=c['server_chunk'], supported_encodings=c['server_supported'])
+    echo = Echo()
+    server.dispatcher.register_instance('p', echo)
+    echo.response = mk_body('text', c['resp_size'], c['seed'])
+    body = b'<x/>'
+    raw = b''
+    for i, accept in enumerate(c['requests']):
+        last = i == len(c['requests']) - 1
+        raw += (f'POST /p/x HTTP/1.1\r\nHost: h\r\nContent-Type: application/soap+xml\r\nContent-Length: {len(body)}\r\n'
+                + (f'Accept-Encoding: {accept}\r\n' if accept is not None else '')
+                + ('Connection: close\r\n' if last else 'Connection: keep-alive\r\n') + '\r\n').encode() + body
+    ctx.case(c, len(set(c['requests'])) >= 2, 'keepalive')
+    resp, exc, _reader = M.handle_raw(server, raw)
+    if exc is not None:
+        if not R.exc_in_library(exc):
+            raise exc
+        return [(f'{P}/keepalive-raises/{R.exc_sig(exc)}', f'{type(exc).__name__}: {exc}'[:300])]
+    try:
+        responses = split_responses(resp)
+    except ValueError as ex:
+        return [(f'{P}/keepalive/response-stream-unparsable', str(ex)[:300])]
+    out = []
+    if len(responses) != len(c['requests']):
+        return [(f'{P}/keepalive/response-count', f'{len(c["requests"])} requests, {len(responses)} responses')]
+    for i, (accept, (status, headers, wire)) in enumerate(zip(c['requests'], responses)):
+        enc = headers.get('content-encoding')
+        tokens = [t.split(';')[0].strip() for t in (accept or '').split(',') if t.strip()]
+        refused = [t.split(';')[0].strip() for t in (accept or '').split(',') if t.replace(' ', '').endswith(';q=0')]
+        if enc is not None and (enc not in tokens or enc in refused or enc not in c['server_supported']):
+            out.append((f'{P}/keepalive/response-coding-not-negotiated',
+                        f'request {i + 1} of {len(c["requests"])} had Accept-Encoding {accept!r} (earlier ones: '
+                        f'{c["requests"][:i]}), the response is coded {enc!r}'))
+            break
+        try:
+            plain = CompressionHandler.decompress_payload(enc, wire) if enc else wire
+        except Exception as ex:  # noqa: BLE001
+            out.append((f'{P}/keepalive/response-undecodable', f'response {i + 1} ({status}): {ex}'[:200]))
+            break
+        if plain != echo.response:
+            out.append((f'{P}/keepalive/response-body-changed', f'response {i + 1}: {len(plain)} bytes, expected '
+                                                                f'{len(echo.response)}'))
+            break
+    return out
+
+
 # --------------------------------------------------------------------------------------------------- rejects
 
 def st_reject_case():
@@ -372,6 +456,8 @@ def shard(ctx, which, n):
         R.hyp_campaign(ctx, which, strat, lambda c: chunk_case(ctx, c), n)
     elif which == 'header':
         R.hyp_campaign(ctx, which, st_header(), lambda items: header_case(ctx, items), n)
+    elif which == 'keepalive':
+        R.hyp_campaign(ctx, which, st_keepalive_case(), lambda c: keepalive_case(ctx, c), n)
     else:
         R.hyp_campaign(ctx, which, st_reject_case(), lambda c: reject_case(ctx, c), n)
 
@@ -379,7 +465,8 @@ def shard(ctx, which, n):
 def run(ctx):
     q = ctx.tier == 'quick'
     jobs = [('echo', 150 if q else 6000)] * 6 + [('chunks', 200 if q else 6000)] * 3 + [
-        ('header', 1500 if q else 60000)] * 4 + [('reject', 300 if q else 10000)] * 3
+        ('header', 1500 if q else 60000)] * 3 + [('reject', 300 if q else 10000)] * 3 + [
+        ('keepalive', 300 if q else 10000)]
     R.run_shards(ctx, __name__, 'shard', jobs)
 
 
@@ -391,6 +478,8 @@ def replay(part, case):
         return echo_case(ctx, case)
     if part == 'chunks':
         return chunk_case(ctx, case)
+    if part == 'keepalive':
+        return keepalive_case(ctx, case)
     if part == 'header':
         return header_case(ctx, [tuple(i) for i in case])
     return reject_case(ctx, case)
